@@ -11,6 +11,9 @@ CHECKS = {
  "C12": dict(text="Integer half proved in Coq for all domains/bounds/sequences: try_set_min/max leave exactly the values on the right side of the bound, fail iff none is left, report a change iff the domain shrank (Properties/C12.v, 9 theorems incl. the bridge to the verified SparseSet model); tied to views.rs Context::try_set_min/max through hook H1 by an exhaustive small-scope + random differential and an independent python judge. Float half: see level_note.",
              note=TB + "PARTIAL: the float half (FloatInterval primitives, float branches of try_set_min/max) is not yet part of this check in the committed state.",
              tech="Coq proofs about the bound setters over abstract domains + refinement bridge to the sparse set + differential through hook H1", ref="6/C12"),
+ "C09": dict(text="Exact-rational LP model with certificate checkers proved sound in Coq for all dimensions (weak duality: check_opt => feasible and optimal; Farkas: check_infeasible => no feasible point; certified lp_solve; uniqueness of the optimal value, which is what warm = cold means; verified tolerant feasibility check). The real solver's status/objective/point are judged on every case by those verified, extracted functions (status vs exact status, objective within tolerance of the exact optimum, returned point through feasible_tol, reported objective = c.x, warm vs cold).",
+             note=TB + "PARTIAL: the f64/LU arithmetic of lpsolver/* is not modelled (the model is an exact simplex, not a mirror of the pivoting), so the tie is a judged differential, not an operational correspondence; numerical error cannot be exhibited by the model. Three known-finding classes (phase1, warmstart, ratio_test) are listed in known_findings.txt.",
+             tech="Coq proofs of LP certificate soundness (weak duality, Farkas) + extracted verified judge applied to the implementation's outputs", ref="6/C09"),
  "C11": dict(text="Refinement theorem (Coq, all histories, all universes): every SparseSet operation sequence incl. stack-disciplined save/restore agrees with a plain mathematical set on every observation; tied to sparse_set.rs by an exhaustive small-scope + seeded random differential of the extracted model against the real SparseSet.",
              note=TB + "Known class D7 (restore after an element-adding union_with) is excluded by hypothesis and refuted by witness; i32/u32 are unbounded Z/nat in the model.",
              tech="Coq refinement proof (sparse set -> mathematical set, induction over op lists) + extracted-model/implementation differential", ref="6/C11"),
